@@ -1,5 +1,5 @@
 """Checks decided by the engines kx, ax, px, cx and the configuration matrix mx."""
-import glob, json, os, shutil, subprocess, time
+import fcntl, glob, json, os, shutil, subprocess, time
 from common import *
 import hxrun, props
 
@@ -149,6 +149,10 @@ def px_conformance(agg, prop, tier, features=(), cfgflags=None):
     t1 = time.time()
     viol = []
     done = 0
+    # the binaries land under fixed names in a target directory that concurrent checks share: build + run is one critical section
+    os.makedirs(tgt, exist_ok=True)
+    tgt_lock = open(os.path.join(tgt, ".verif-lock"), "w")
+    fcntl.flock(tgt_lock, fcntl.LOCK_EX)
     for stale in glob.glob(os.path.join(tgt, "debug", "p[0-9]*")):
         try:
             os.remove(stale)
@@ -181,6 +185,8 @@ def px_conformance(agg, prop, tier, features=(), cfgflags=None):
                     raise MachineryError("conformance binary %s died with rc=%s: %s" % (b, rc, (err or "")[-500:]))
         if not viol and done != info["positive_cases"]:
             raise MachineryError("conformance: %d of %d cases reported completion" % (done, info["positive_cases"]))
+    fcntl.flock(tgt_lock, fcntl.LOCK_UN)
+    tgt_lock.close()
     negs_checked = 0
     known_f7 = 0
     if info["negative_programs"]:
@@ -283,9 +289,16 @@ def check_c18(tier, seed, t0):
             res["results"] += [dict(x, name=x["name"] + "@" + tag) for x in r2["results"]]
             res["programs"] += r2["programs"]
     nontriv = 0
+    broken_twins = [x for x in res["results"] if not x["twin_compiles"]]
+    if len(broken_twins) * 2 > len(res["results"]):
+        # nothing compiles: the tree (or the toolchain) is broken, which is not a statement about the property
+        raise MachineryError("most sound twins do not compile on this tree, e.g. %s: %s" % (broken_twins[0]["name"], broken_twins[0]["twin_errors"]))
     for x in res["results"]:
         if not x["twin_compiles"]:
-            raise MachineryError("corpus bug: the sound twin of %s does not compile on this tree: %s" % (x["name"], x["twin_errors"]))
+            # every twin is a sound program that compiles on the pinned tree: rejecting it is the other direction of the envelope
+            # (e.g. a world of Send components that is no longer Send)
+            agg["violations"].append({"prop": "C18", "oracle": "sound-program-rejected:" + x["name"].split("__")[0], "msg": "the sound twin of '%s' does not compile: %s" % (x["name"], x["twin_errors"][:3]), "engine": "cx", "history": None, "extra": {"program": x["good"]}})
+            continue
         if not x["rejected"]:
             agg["violations"].append({"prop": "C18", "oracle": "unsound-program-compiles:" + x["name"].split("__")[0], "msg": "the unsound program '%s' compiles (its twin differs only in statement order)" % x["name"], "engine": "cx", "history": None, "extra": {"program": x["bad"], "twin": x["good"]}})
         elif not x["family_ok"]:
